@@ -12,66 +12,113 @@
                                allowed   = current <= limit /\ (n > 0 \/ current < limit),  ResetAtMs = expires_at.
    Check = AllowN(0), Allow = AllowN(1).  Note that the script counts every REQUESTED token, admitted or not.
 
+   limit and window are a parameter of EVERY CALL: the limiter is configured with a default (Limit, W) and a call may
+   bring a list of options, each a (limit, window) pair (WithCustomRateLimit); the LAST option of the list is in force
+   for the call, the default when the list is empty.  The keys depend on the identifier only, so calls
+   with different limits and windows share one counter and one expires_at per identifier: the window that a call finds
+   open keeps the length its opener gave it, the call's own window matters only when the call opens a new one, and the
+   call's own limit decides its verdict and its Remaining.
+
    Time is one discrete clock shared by callers and server (one process in the conformance runs).  A call is three
    steps: Read (the caller reads the clock), Script (the server runs the script with the time the caller read - other
    callers and the clock may move in between), Ret.  Keys disappear when the clock passes their PXAT deadline.
    Units are abstract: the exhaustive configs use W = 2 ticks, trace validation uses milliseconds.
 
-   Ghost state (never read by the modelled code): the serial number of the server-side window of each identifier and
-   the number of tokens requested in it; the properties compare what callers are told with these.               *)
+   Ghost state (never read by the modelled code): the serial number of the server-side window of each identifier, the
+   number of tokens requested in it and the number of tokens admitted in it (in the order in which the server ran the
+   scripts); the properties compare what callers are told with these.               *)
 EXTENDS Integers, Sequences, FiniteSets, TLC, Json
 
-CONSTANTS Callers, Ids, Limit, W, Slack,
+CONSTANTS Callers, Ids,
+          Limit, W,      \* the limiter's configured default limit and window
+          OptLists,      \* the option lists a call may pass: sequences of [lim, w] records; <<>> = no option = the default
+          Slack,
           Ns,            \* values of n callers use (0 = Check)
           Jumps,         \* amounts by which the clock may advance in one step
           MaxClock, MaxCalls,   \* bound on the clock / on the total number of calls
-          MaxStale,      \* a Script step runs at most this long after its Read (the property's "no clock skew" assumption)
+          MaxStale,      \* a Script step of a call with the default window runs at most this long after its Read (the
+                         \* property's "no clock skew" assumption); a call with window w: MaxStale - W + w, i.e. always
+                         \* "less than the call's own window + Slack"
           BugIncrBeforeReset,   \* INCRBY placed before the window test
           BugAllowOneMore,      \* allowed := current <= limit + 1
-          BugNoZeroOnReset      \* window reset keeps the old counter value
+          BugNoZeroOnReset,     \* window reset keeps the old counter value
+          BugVerdictFromDefault,   \* allowed computed with the configured default limit, Remaining with the call's limit
+          BugRemainingFromDefault, \* Remaining computed with the configured default limit, allowed with the call's limit
+          BugWindowFromDefault,    \* next = now + configured default window whatever the call's option says
+          BugFirstOptionWins       \* the first option of the list is used instead of the last
 
 VARIABLES clock,
           ek, ekTtl, ck, ckTtl,    \* per identifier: expires_at key (0 = none) and counter key (-1 = none) with PXAT deadlines (0 = no TTL)
           pc, cid, cn, cnow, cret, \* per caller: position, identifier, n, time read, script reply
+          clim, cw,                \* per caller: limit and window the code uses for the call in progress (0 = no call)
+          olim, ow,                \* ghost per caller: limit and window in force for the call = the last option / the default
           wid, gsum,               \* ghost per identifier: window serial number, tokens requested in the window
+          gadm,                    \* ghost per identifier: tokens admitted in the window, counted in script order
           ncalls,                  \* ghost: number of completed calls
-          adm,                     \* ghost: set of [id, reset, sum]: tokens admitted per identifier and ResetAtMs
+          adm,                     \* ghost: set of [id, reset, sum, maxlim]: tokens admitted per identifier and ResetAtMs and the
+                                   \*        largest limit among the admitted calls of that group
           seen                     \* ghost: set of [id, reset, wid]: which ResetAtMs was reported for which server window
 
-vars == <<clock, ek, ekTtl, ck, ckTtl, pc, cid, cn, cnow, cret, wid, gsum, ncalls, adm, seen>>
+vars == <<clock, ek, ekTtl, ck, ckTtl, pc, cid, cn, cnow, cret, clim, cw, olim, ow, wid, gsum, gadm, ncalls, adm, seen>>
 
 Max(a, b) == IF a > b THEN a ELSE b
-NoRet == [cur |-> 0, exp |-> 0, prev |-> 0, wasreset |-> FALSE, wid |-> 0, gsum |-> 0]
+NoRet == [cur |-> 0, exp |-> 0, prev |-> 0, wasreset |-> FALSE, wid |-> 0, gsum |-> 0, gadm |-> 0]
+Default == [lim |-> Limit, w |-> W]
+\* the option in force for a call that passes the list os, and the one the code picks
+InForce(os) == IF os = <<>> THEN Default ELSE os[Len(os)]
+Picked(os) == IF os = <<>> THEN Default ELSE os[IF BugFirstOptionWins THEN 1 ELSE Len(os)]
+
+\* values for OptLists (TLC's cfg syntax has neither tuples nor records: the configs say  OptLists <- OL_xxx).
+\* They are written for the default window W = 2 and make sense for the default limits 3 and 1 used by the configs.
+O(l, w) == [lim |-> l, w |-> w]
+OL_None == {<<>>}                                                  \* every call uses the configured default
+\* exhaustive configs: a limit below the default with a shorter window, a limit above the default behind a decoy option
+OL_LoHi == {<<>>, <<O(1, 1)>>, <<O(2, 1), O(Limit + 2, W)>>}
+\* two identifiers: a limit below the default, a limit above it with a shorter window
+OL_Ids == {<<O(1, W)>>, <<O(Limit + 1, 1)>>}
+\* generation: more of everything (explicit default, equal limit with another window, longer and shorter windows)
+OL_Gen == {<<>>, <<O(Limit, W)>>, <<O(1, W)>>, <<O(2, 1)>>, <<O(Limit + 2, W)>>, <<O(Limit + 1, W + 1)>>, <<O(Limit, 1)>>,
+           <<O(Limit + 2, W + 1), O(1, W)>>, <<O(1, 1), O(Limit + 2, W)>>}
 
 Init == /\ clock = 1
         /\ ek = [i \in Ids |-> 0] /\ ekTtl = [i \in Ids |-> 0] /\ ck = [i \in Ids |-> -1] /\ ckTtl = [i \in Ids |-> 0]
         /\ pc = [c \in Callers |-> "idle"] /\ cid = [c \in Callers |-> CHOOSE i \in Ids : TRUE]
         /\ cn = [c \in Callers |-> 0] /\ cnow = [c \in Callers |-> 0] /\ cret = [c \in Callers |-> NoRet]
-        /\ wid = [i \in Ids |-> 0] /\ gsum = [i \in Ids |-> 0]
+        /\ clim = [c \in Callers |-> 0] /\ cw = [c \in Callers |-> 0]
+        /\ olim = [c \in Callers |-> 0] /\ ow = [c \in Callers |-> 0]
+        /\ wid = [i \in Ids |-> 0] /\ gsum = [i \in Ids |-> 0] /\ gadm = [i \in Ids |-> 0]
         /\ ncalls = 0 /\ adm = {} /\ seen = {}
 
 NCalls == ncalls + Cardinality({c \in Callers : pc[c] # "idle"})
 
 Advance(d) == /\ clock + d <= MaxClock /\ clock' = clock + d
-              \* the "no skew" assumption: nobody sits on a clock reading for longer than MaxStale
-              /\ \A c \in Callers : pc[c] = "read" => clock + d - cnow[c] <= MaxStale
-              /\ UNCHANGED <<ek, ekTtl, ck, ckTtl, pc, cid, cn, cnow, cret, wid, gsum, ncalls, adm, seen>>
+              \* the "no skew" assumption: nobody sits on a clock reading for longer than its window + slack allows
+              /\ \A c \in Callers : pc[c] = "read" => clock + d - cnow[c] <= MaxStale - W + ow[c]
+              /\ UNCHANGED <<ek, ekTtl, ck, ckTtl, pc, cid, cn, cnow, cret, clim, cw, olim, ow, wid, gsum, gadm, ncalls, adm, seen>>
 
-\* AllowN(id, n) entered: time.Now()
-ReadAt(c, i, k, t) ==
+\* AllowN(id, n, options...) entered: the effective option is chosen, then time.Now()
+ReadAt(c, i, k, t, os) ==
   /\ pc[c] = "idle"
   /\ pc' = [pc EXCEPT ![c] = "read"] /\ cid' = [cid EXCEPT ![c] = i] /\ cn' = [cn EXCEPT ![c] = k]
   /\ cnow' = [cnow EXCEPT ![c] = t]
-  /\ UNCHANGED <<clock, ek, ekTtl, ck, ckTtl, cret, wid, gsum, ncalls, adm, seen>>
+  /\ clim' = [clim EXCEPT ![c] = Picked(os).lim] /\ cw' = [cw EXCEPT ![c] = Picked(os).w]
+  /\ olim' = [olim EXCEPT ![c] = InForce(os).lim] /\ ow' = [ow EXCEPT ![c] = InForce(os).w]
+  /\ UNCHANGED <<clock, ek, ekTtl, ck, ckTtl, cret, wid, gsum, gadm, ncalls, adm, seen>>
 
-Read(c, i, k) == NCalls < MaxCalls /\ ReadAt(c, i, k, clock)
+Read(c, i, k, os) == NCalls < MaxCalls /\ ReadAt(c, i, k, clock, os)
 
 \* a key with PXAT deadline t is gone once the clock has passed t
 Alive(t) == t = 0 \/ clock <= t
 
-\* the script, atomically, for identifier i with n = k and the caller's idea of the time
-ScriptOn(c, i, k, now) ==
-  /\ LET next == now + W
+\* the caller's verdict for a script reply cur of a call for k tokens under limit lim
+Verdict(cur, k, lim) == LET vl == IF BugVerdictFromDefault THEN Limit ELSE lim IN
+                        (cur <= (IF BugAllowOneMore THEN vl + 1 ELSE vl)) /\ (k > 0 \/ cur < vl)
+
+\* the script, atomically, for identifier i with n = k, the caller's idea of the time and the call's limit and window
+\* (the limit never reaches the server: it only enters the ghost count of admitted tokens, which is known here because
+\* the verdict is a function of the reply and the call's limit)
+ScriptOn(c, i, k, now, lim, w) ==
+  /\ LET next == now + (IF BugWindowFromDefault THEN W ELSE w)
          ekv == IF ek[i] # 0 /\ Alive(ekTtl[i]) THEN ek[i] ELSE 0
          ckv == IF ck[i] # -1 /\ Alive(ckTtl[i]) THEN ck[i] ELSE -1
          reset == ekv = 0 \/ ekv < now
@@ -81,64 +128,79 @@ ScriptOn(c, i, k, now) ==
          cur == IF reset THEN (IF BugIncrBeforeReset THEN early ELSE zero + k) ELSE base + k
          stored == IF reset THEN (IF BugIncrBeforeReset THEN zero ELSE zero + k) ELSE base + k
          exp == IF reset THEN next ELSE ekv
-         w == IF reset THEN wid[i] + 1 ELSE wid[i]
+         wn == IF reset THEN wid[i] + 1 ELSE wid[i]
          g == IF reset THEN k ELSE gsum[i] + k
+         add == IF k > 0 /\ Verdict(cur, k, lim) THEN k ELSE 0
+         ga == IF reset THEN add ELSE gadm[i] + add
      IN /\ ek' = [ek EXCEPT ![i] = exp]
         /\ ekTtl' = [ekTtl EXCEPT ![i] = IF reset THEN next + Slack ELSE ekTtl[i]]
         /\ ck' = [ck EXCEPT ![i] = stored]
         /\ ckTtl' = [ckTtl EXCEPT ![i] = IF reset THEN next + Slack ELSE IF ckv = -1 THEN 0 ELSE ckTtl[i]]
-        /\ wid' = [wid EXCEPT ![i] = w] /\ gsum' = [gsum EXCEPT ![i] = g]
+        /\ wid' = [wid EXCEPT ![i] = wn] /\ gsum' = [gsum EXCEPT ![i] = g] /\ gadm' = [gadm EXCEPT ![i] = ga]
         /\ cret' = [cret EXCEPT ![c] = [cur |-> cur, exp |-> exp, prev |-> IF reset THEN 0 ELSE base, wasreset |-> reset,
-                                         wid |-> w, gsum |-> g]]
+                                         wid |-> wn, gsum |-> g, gadm |-> ga]]
   /\ pc' = [pc EXCEPT ![c] = "ran"]
   /\ UNCHANGED <<clock, ncalls, adm, seen>>
 
-Script(c) == pc[c] = "read" /\ ScriptOn(c, cid[c], cn[c], cnow[c]) /\ UNCHANGED <<cid, cn, cnow>>
+Script(c) == pc[c] = "read" /\ ScriptOn(c, cid[c], cn[c], cnow[c], clim[c], cw[c]) /\ UNCHANGED <<cid, cn, cnow, clim, cw, olim, ow>>
 
 \* the caller's decision
 ResultOf(c) == LET r == cret[c]  k == cn[c] IN
-  [c |-> c, id |-> cid[c], n |-> k, now |-> cnow[c], cur |-> r.cur, exp |-> r.exp,
-   allowed |-> (r.cur <= (IF BugAllowOneMore THEN Limit + 1 ELSE Limit)) /\ (k > 0 \/ r.cur < Limit),
-   remaining |-> Max(Limit - r.cur, 0), reset |-> r.exp,
-   prev |-> r.prev, wasreset |-> r.wasreset, wid |-> r.wid, gsum |-> r.gsum]
+  [c |-> c, id |-> cid[c], n |-> k, now |-> cnow[c], lim |-> olim[c], w |-> ow[c], cur |-> r.cur, exp |-> r.exp,
+   allowed |-> Verdict(r.cur, k, clim[c]),
+   remaining |-> Max((IF BugRemainingFromDefault THEN Limit ELSE clim[c]) - r.cur, 0), reset |-> r.exp,
+   prev |-> r.prev, wasreset |-> r.wasreset, wid |-> r.wid, gsum |-> r.gsum, gadm |-> r.gadm]
 
-AdmSum(i, r) == IF \E a \in adm : a.id = i /\ a.reset = r THEN (CHOOSE a \in adm : a.id = i /\ a.reset = r).sum ELSE 0
+AdmOf(i, r) == IF \E a \in adm : a.id = i /\ a.reset = r THEN CHOOSE a \in adm : a.id = i /\ a.reset = r
+               ELSE [id |-> i, reset |-> r, sum |-> 0, maxlim |-> 0]
 
 Ret(c) == /\ pc[c] = "ran" /\ pc' = [pc EXCEPT ![c] = "idle"]
           /\ cn' = [cn EXCEPT ![c] = 0] /\ cnow' = [cnow EXCEPT ![c] = 0] /\ cret' = [cret EXCEPT ![c] = NoRet]
+          /\ clim' = [clim EXCEPT ![c] = 0] /\ cw' = [cw EXCEPT ![c] = 0]
+          /\ olim' = [olim EXCEPT ![c] = 0] /\ ow' = [ow EXCEPT ![c] = 0]
           /\ cid' = [cid EXCEPT ![c] = CHOOSE i \in Ids : TRUE]
           /\ LET o == ResultOf(c)
-                 add == IF o.n > 0 /\ o.allowed THEN o.n ELSE 0
+                 admitted == o.n > 0 /\ o.allowed
+                 old == AdmOf(o.id, o.reset)
              IN /\ ncalls' = ncalls + 1
                 /\ adm' = {a \in adm : ~(a.id = o.id /\ a.reset = o.reset)} \cup
-                             {[id |-> o.id, reset |-> o.reset, sum |-> AdmSum(o.id, o.reset) + add]}
+                             {[id |-> o.id, reset |-> o.reset, sum |-> old.sum + (IF admitted THEN o.n ELSE 0),
+                               maxlim |-> IF admitted THEN Max(old.maxlim, o.lim) ELSE old.maxlim]}
                 /\ seen' = seen \cup {[id |-> o.id, reset |-> o.reset, wid |-> o.wid]}
-          /\ UNCHANGED <<clock, ek, ekTtl, ck, ckTtl, wid, gsum>>
+          /\ UNCHANGED <<clock, ek, ekTtl, ck, ckTtl, wid, gsum, gadm>>
 
 Next == \/ \E d \in Jumps : Advance(d)
-        \/ \E c \in Callers, i \in Ids, k \in Ns : Read(c, i, k)
+        \/ \E c \in Callers, i \in Ids, k \in Ns, os \in OptLists : Read(c, i, k, os)
         \/ \E c \in Callers : Script(c) \/ Ret(c)
 
 Spec == Init /\ [][Next]_vars
 
 \* ---------------------------------------------------------------------------------------------- properties
-\* (per-call properties are stated about every caller whose script has run and who is about to return)
+\* (per-call properties are stated about every caller whose script has run and who is about to return; "the limit" and
+\*  "the window" are the ones in force for THAT call: the per-call option when there is one, the default otherwise)
 Ran == {c \in Callers : pc[c] = "ran"}
-\* grouped the way a user can group them: tokens admitted (n of calls with n > 0 that were told Allowed) per identifier
-\* and ResetAtMs never exceed the limit
-AdmittedPerWindow == \A a \in adm : a.sum <= Limit
+\* in the order in which the server counted them: a call is admitted only if the tokens admitted so far in the server
+\* window, including its own, do not exceed the limit in force for it
+AdmittedWithinCallLimit == \A c \in Ran : LET o == ResultOf(c) IN (o.n > 0 /\ o.allowed) => o.gadm <= o.lim
+\* grouped the way a user can group them (order independent): tokens admitted (n of calls with n > 0 that were told
+\* Allowed) per identifier and ResetAtMs never exceed the limit - the largest one among the admitted calls of the
+\* group when they used different limits
+AdmittedPerWindow == \A a \in adm : a.sum <= a.maxlim
 \* a Check leaves the counter as it found it (or at zero in a new window) and reports whether a token is left
-CheckConsumesNothing == \A c \in Ran : LET o == ResultOf(c) IN o.n = 0 => (o.cur = o.prev /\ o.allowed = (o.cur < Limit))
+CheckConsumesNothing == \A c \in Ran : LET o == ResultOf(c) IN o.n = 0 => (o.cur = o.prev /\ o.allowed = (o.cur < o.lim))
 \* Remaining = limit minus everything requested so far in the window, floored at 0
-RemainingExact == \A c \in Ran : LET o == ResultOf(c) IN o.remaining = Max(Limit - o.gsum, 0) /\ o.cur = o.gsum
+RemainingExact == \A c \in Ran : LET o == ResultOf(c) IN o.remaining = Max(o.lim - o.gsum, 0) /\ o.cur = o.gsum
 \* admission rule: a request is admitted iff the window's requests including it do not exceed the limit
-AllowedRule == \A c \in Ran : LET o == ResultOf(c) IN o.n > 0 => (o.allowed = (o.gsum <= Limit))
+AllowedRule == \A c \in Ran : LET o == ResultOf(c) IN o.n > 0 => (o.allowed = (o.gsum <= o.lim))
 \* ResetAtMs names the server-side window the call was counted in: equal within one window, different across windows
 ResetIdentifiesWindow == \A x, y \in seen : x.id = y.id => ((x.wid = y.wid) = (x.reset = y.reset))
-\* a new window's ResetAtMs is the opening caller's time plus the window length
-ResetIsNowPlusWindow == \A c \in Ran : LET o == ResultOf(c) IN o.wasreset => o.reset = o.now + W
+\* a new window's ResetAtMs is the opening caller's time plus the window length in force for that call
+ResetIsNowPlusWindow == \A c \in Ran : LET o == ResultOf(c) IN o.wasreset => o.reset = o.now + o.w
 
 TypeOK == /\ clock \in 1..MaxClock /\ \A c \in Callers : pc[c] \in {"idle", "read", "ran"}
           /\ ncalls <= MaxCalls
+          /\ \A c \in Callers : IF pc[c] = "idle" THEN clim[c] = 0 /\ cw[c] = 0 /\ olim[c] = 0 /\ ow[c] = 0
+                                ELSE [lim |-> olim[c], w |-> ow[c]] \in {InForce(os) : os \in OptLists}
+          /\ \A i \in Ids : gadm[i] <= gsum[i]
 
 =============================================================================
